@@ -61,7 +61,8 @@ var Constructs = func() []Construct {
 	l = append(l, cs("value", "!important", "! important", "a!important")...)
 	// declaration lists
 	l = append(l, cs("decls", "a:b", "a:b;c:d", "a : b ! important", "a:b!important;c:d", "a:{}", "@x y;a:b", "a:b;@x{c:d}", "--a: {b}", "a:url(x) 1px 'q'",
-		"a:b !important!", "a{b:c}d:e", "a:b!important !important", "a:b ! /**/ important", "a b:c", ";;a:b;;", "unicode-range:U+0025-00FF,u+4-5", "a:1e3;b:#-\\41")...)
+		"a:b !important!", "a{b:c}d:e", "a:b!important !important", "a:b ! /**/ important", "a b:c", ";;a:b;;", "unicode-range:U+0025-00FF,u+4-5", "a:1e3;b:#-\\41",
+		"a:{} x", "a:! {}", "a:{} !important", "a:!important {}", "a:{b}c;d:e", "a:x{b}c:d", "a:{}{}", "a: /**/{}/**/ ;b:c")...)
 	// rule lists / stylesheets
 	l = append(l, cs("rules", "a{b:c}", "a,b{c:d;e:f}", "@media x{a{b:c}}", "@import \"x\";", "@import url(x) print;", "<!--a{}-->", "a{b:c}@x;", "a{}b{}",
 		"@page :first{margin:1px}", "@font-face{unicode-range:U+0-7F}", "a[b=\"c\"]:not(d)::e{f:g}", "/**/a/**/{/**/b/**/:/**/c/**/}", "a{b{c:d}e:f}")...)
